@@ -122,6 +122,22 @@ def _gs_templates(v, s):
             def _(w): return w.call(w.gs(v, s), "amplitude", o, sp, idx)
         _mk(o, sp, idx, tier)
 
+    # pure order bookkeeping (cheap up to high orders)
+    for o in (2, 3, 4, 5, 6):
+        def _mk(o):
+            @tmpl(f"{tag}.expand_norm_factor({o})", c, None)
+            def _(w): return str(w.call(w.gs(v, s), "expand_norm_factor", o))
+        _mk(o)
+
+    @tmpl(f"{tag}.expand_norm_factor(6,min_order=3)", c, None)
+    def _(w): return str(w.call(w.gs(v, s), "expand_norm_factor", 6, 3))
+
+    @tmpl(f"{tag}.norm_factor(3)", c, "", fresh="norm")
+    def _(w): return w.call(w.gs(v, s), "norm_factor", 3)
+
+    @tmpl(f"{tag}.norm_factor(4)", c, "", fresh="norm", cost=3, tier="q" if c == "mp" else "t")
+    def _(w): return w.call(w.gs(v, s), "norm_factor", 4)
+
     @tmpl(f"{tag}.overlap(2)", c, "")
     def _(w): return w.call(w.gs(v, s), "overlap", 2)
 
@@ -175,6 +191,15 @@ def _isr_templates(v, kind, space, idx, idx2, orders=(0, 1, 2), tier="q"):
                   tier="t" if o == 2 else tier, cost=4 if o == 2 else 1)
             def _(w): return w.call(w.isr(v, kind), "overlap_isr", o, block, bidx)
         _mk(o)
+
+    for o in (2, 4, 5, 6):
+        def _mk(o):
+            @tmpl(f"{tag}.expand_S_taylor({o})", c, None)
+            def _(w): return str(w.call(w.isr(v, kind), "expand_S_taylor", o))
+        _mk(o)
+
+    @tmpl(f"{tag}.expand_S_taylor(6,min_order=3)", c, None)
+    def _(w): return str(w.call(w.isr(v, kind), "expand_S_taylor", 6, 3))
 
     @tmpl(f"{tag}.amplitude_vector({idx},right)", c, idx)
     def _(w): return w.call(w.isr(v, kind), "amplitude_vector", idx, "right")
